@@ -5,7 +5,7 @@ dec.c, enc.c, base64.c, zip.c, cred.c) under ASan/UBSan/LSan - toy-primitive bui
 (replies, leak flag, out-of-bounds verdict), real-primitive build judged by the property oracle - with canary requests."""
 import json, struct
 from ..vlib import leanlib, cbuild, judge
-from ..gen import g_dec
+from ..gen import g_dec, g_unpack
 from . import _cred_common as cc
 from . import _c08_fd
 
@@ -266,6 +266,9 @@ def run(ctx):
         ops = rep.get("ops") or []
         judge.run_and_judge(ctx, "replay", ops, [h], [drv], oracle=make_oracle(["?"] * len(ops)), what="hostile input (replay)", key_of=key_of)
         return
+    # the parsers themselves, translated from dec.c by the K+cursor translator: every read inside the buffer, every copy fits
+    if g_unpack.generate(ctx):
+        leanlib.check_props(ctx, "C08Unpack")
     leanlib.check_props(ctx, "C08")
     drv = leanlib.driver(ctx)
     htoy = cc.build_toy(ctx)
